@@ -210,6 +210,7 @@ type HandlerCall struct {
 	PacketsDelivered int
 	CommitsDelivered int
 	ScribbleNote     string
+	MarshalNote      string
 }
 
 // MapperCall is one invocation of the table mapper.
